@@ -1,4 +1,5 @@
 import SigModel.Model.Cmp
+import SigModel.Model.Bloom
 import Oracle.Util
 /- suite "cmpk" (harness/cmd/corr/c02_cmp.go): the typed comparison kernel of C02.
 
@@ -6,6 +7,7 @@ import Oracle.Util
    wcmp <rec> <op> <text>                → ok true | ok false | na
    rcmp <s|u|f> <min> <max> <op> <text>  → pass | skip           (f: min/max are 16 hex digits of float64 bits)
    lit  <text>                           → d=<s|u|f> s=<int64|?> u=<uint64|?> f=<16 hex>
+   subw <ci> <hay> <needle>              → 1 | 0     (suite "subword": utils.IsSubWordPresent; hay / needle: hex bytes or `e` = empty)
 
    rec  ::= i:<int64> | u:<uint64> | f:<16 hex bits> | s:<hex bytes> | b:0 | b:1 | n | x:<hex of raw TLV bytes>
    op   ::= = | != | < | <= | > | >=
@@ -192,8 +194,20 @@ def lit (args : List String) : String :=
     | none => "bad-op"
   | _ => "bad-op"
 
+def bytesArg? (s : String) : Option Bytes := if s == "e" then some [] else hexBytes? s
+
+/-- suite "subword": the free-text word / phrase matcher `utils.IsSubWordPresent` (model `Bloom.subWord`) -/
+def subw (args : List String) : String :=
+  match args with
+  | [ci, h, n] =>
+    match (if ci == "1" then some true else if ci == "0" then some false else none), bytesArg? h, bytesArg? n with
+    | some ci, some h, some n => if SigModel.Bloom.subWord ci h n then "1" else "0"
+    | _, _, _ => "bad-op"
+  | _ => "bad-op"
+
 def handle (cmd : String) (args : List String) : Option String :=
   match cmd with
+  | "subw" => some (subw args)
   | "cmp" => some (cmp args)
   | "wcmp" => some (wcmp args)
   | "rcmp" => some (rcmp args)
